@@ -30,8 +30,24 @@ import (
 // restart} up to the depth bound, for limits 1..3 and initial heights 1 and 3. A restart builds a NEW Manager over the
 // key/value image the old process left behind (same DA layer, executor, sequencing layer): whatever the new process
 // believes to be pending it has read back from the store.
+// A DA outage has two forms: the DA layer ANSWERS every request of a DA block with an error, or it gives NO ANSWER to
+// the requests of a DA block (header requests, data requests or both are lost: the call returns only when the caller
+// gives it up); afterwards the DA layer accepts. After a lost request the closing phase lasts lostHorizon DA blocks
+// longer, in all of which the DA layer accepts everything it is sent.
 
 const daBlock = time.Second
+
+// lostHorizon: how many accepting DA blocks the node is given, after a history in which a request got no answer, to
+// give that request up and send the blobs again (the code under test abandons an attempt after 60 s) before
+// "production resumes" is demanded. The property says "never stops permanently"; this is the finite horizon of the check.
+const lostHorizon = 90
+
+// lost-request kinds (choice values of the "lost" point of a DA block; 0 = every request is answered)
+const (
+	lostHeaders = 1 // header submissions sent during this DA block get no answer
+	lostData    = 2 // data submissions sent during this DA block get no answer
+	lostBoth    = 3
+)
 
 type item struct {
 	header bool
@@ -71,6 +87,7 @@ type outcome struct {
 	tags    []string
 	events  []string
 	sig     string
+	lost    int // DA requests of this history that got no answer
 }
 
 func body(t *testing.T, c *explore.Ctx, depth int, sh sharder) (out outcome) {
@@ -137,9 +154,17 @@ func bubble(c *explore.Ctx, depth int, sh sharder) (out outcome) {
 		return world.SeqAnswer{Kind: "batch", Txs: [][]byte{[]byte(fmt.Sprintf("tx-%d", fresh))}, Time: clock}
 	}
 	outage := false
+	lostMask, lostCalls := 0, 0
+	defer func() { out.lost = lostCalls }()
 	env.DA.SubmitPolicy = func(blobs [][]byte) world.SubmitAnswer {
 		if outage {
 			return world.SubmitGenericError
+		}
+		if lostMask != 0 && len(blobs) > 0 {
+			if it, ok := classify(blobs[0]); ok && (it.header && lostMask&lostHeaders != 0 || !it.header && lostMask&lostData != 0) {
+				lostCalls++
+				return world.SubmitNoAnswer
+			}
 		}
 		return world.SubmitAcceptAll
 	}
@@ -175,6 +200,7 @@ func bubble(c *explore.Ctx, depth int, sh sharder) (out outcome) {
 	}
 
 	allEmpty, sawOutage := true, false
+	sawLost := 0 // union of the lost-request kinds chosen so far
 	restarts, restartAfterAck := 0, false
 	var extraTags []string
 	tags := func() []string {
@@ -187,6 +213,9 @@ func bubble(c *explore.Ctx, depth int, sh sharder) (out outcome) {
 		// the run of empty blocks directly above the data watermark
 		if sawOutage {
 			tg = append(tg, "da-outage")
+		}
+		if lostCalls > 0 {
+			tg = append(tg, "da-request-unanswered")
 		}
 		if initial > 1 {
 			tg = append(tg, "initial-height>1")
@@ -227,6 +256,7 @@ func bubble(c *explore.Ctx, depth int, sh sharder) (out outcome) {
 		return w, sb.String()
 	}
 	var sig strings.Builder
+	closing := 3 // length of the closing phase in DA blocks (longer after a lost request)
 	produce := func(empty bool, must bool) *world.Fail {
 		nextEmpty = empty
 		before := n.Height()
@@ -259,21 +289,31 @@ func bubble(c *explore.Ctx, depth int, sh sharder) (out outcome) {
 			}
 			return &world.Fail{Clause: "declines-only-while-waiting", Msg: fmt.Sprintf("production was declined at height %d with limit %d although only %d committed block(s) [%s] are still waiting to be accepted by the DA layer (pending counters: headers %d, data %d)", before, limit, w, which, n.M.VerifNumPendingHeaders(), n.M.VerifNumPendingData())}
 		}
+		if must && w > 0 {
+			return &world.Fail{Clause: "resumes-after-acceptance", Msg: fmt.Sprintf("the DA layer has accepted every submission it was sent during the last %d DA blocks, yet %d committed block(s) [%s] are still not acknowledged — the node did not send them again — and production is still declined at height %d (limit %d; pending counters: headers %d, data %d; %d request(s) of an earlier DA block got no answer)", closing, w, which, before, limit, n.M.VerifNumPendingHeaders(), n.M.VerifNumPendingData(), lostCalls)}
+		}
 		if must {
 			return &world.Fail{Clause: "resumes-after-acceptance", Msg: fmt.Sprintf("the DA layer accepted everything and both submission loops ran twice, yet production is still declined at height %d (limit %d; pending counters: headers %d, data %d)", before, limit, n.M.VerifNumPendingHeaders(), n.M.VerifNumPendingData())}
 		}
 		return nil
 	}
-	tick := func(out_ bool) {
-		outage = out_
-		if out_ {
+	// tick: one DA block. out_ = the DA layer answers every request with an error; lost = the requests of the given
+	// kinds get no answer at all (the calls stay open when the DA block is over; from then on the DA layer accepts).
+	tick := func(out_ bool, lost int) {
+		outage, lostMask = out_, lost
+		switch {
+		case out_:
 			sawOutage = true
 			sig.WriteString("x")
-		} else {
+		case lost != 0:
+			sawLost |= lost
+			sig.WriteString([]string{"", "h", "a", "b"}[lost])
+		default:
 			sig.WriteString("t")
 		}
 		time.Sleep(daBlock)
 		synctest.Wait()
+		lostMask = 0
 	}
 	// restart: the process ends between two actions (crash or clean stop) and a NEW Manager is constructed over the
 	// key/value image the old one left behind; DA layer, executor and sequencing layer live on. Whatever the new
@@ -325,18 +365,42 @@ func bubble(c *explore.Ctx, depth int, sh sharder) (out outcome) {
 			}
 		} else {
 			o := c.Choose("outage", 2) == 1
-			out.events = append(out.events, map[bool]string{true: "DA-block(outage)", false: "DA-block(accepting)"}[o])
-			tick(o)
+			lost := 0
+			if !o {
+				lost = c.Choose("lost", 4)
+			}
+			switch {
+			case o:
+				out.events = append(out.events, "DA-block(outage)")
+			case lost != 0:
+				out.events = append(out.events, "DA-block("+[]string{"", "header", "data", "header and data"}[lost]+" requests get no answer)")
+			default:
+				out.events = append(out.events, "DA-block(accepting)")
+			}
+			tick(o, lost)
 		}
 	}
-	// the DA accepts; after both loops ran (two DA blocks, which also covers the longest back-off) production resumes
-	tick(false)
-	tick(false)
-	tick(false)
+	// the DA accepts; after both loops ran (two DA blocks, which also covers the longest back-off) production resumes.
+	// After a history with a lost request the node is first given lostHorizon accepting DA blocks to give the
+	// unanswered call up and send the blobs again.
+	if sawLost != 0 {
+		closing += lostHorizon
+		outage, lostMask = false, 0
+		time.Sleep(lostHorizon * daBlock)
+		synctest.Wait()
+		sig.WriteString("T")
+	}
+	tick(false, 0)
+	tick(false, 0)
+	tick(false, 0)
 	if w, which := waiting(); w != 0 {
-		out.fail = &world.Fail{Clause: "engine", Msg: "after three accepting DA blocks items are still unacknowledged: " + which}
-		// this is C06's liveness; report there, here only as a precondition failure
-		out.fail.Clause = "precondition-submission-completes"
+		// is production stopped by it? (the property's own liveness half: the DA layer accepts, production must not stay
+		// stopped); otherwise it is C06's liveness — report there, here only as a precondition failure
+		if f := produce(false, true); f != nil {
+			out.fail, out.tags = f, tags()
+			return
+		}
+		out.fail = &world.Fail{Clause: "precondition-submission-completes", Msg: fmt.Sprintf("after %d accepting DA blocks items are still unacknowledged: %s", closing, which)}
 		out.tags = tags()
 		return
 	}
@@ -358,13 +422,16 @@ func TestCheck(t *testing.T) {
 	maxRestarts := vf.Pick(r, 2, 2)
 	lazyBlocks := vf.Pick(r, 6, 8)
 	lazyRestarts := vf.Pick(r, 1, 2)
-	budgets := map[string]int{"outage": 3, "restart": maxRestarts}
+	maxLost := vf.Pick(r, 1, 2)
+	lazyLost := vf.Pick(r, 1, 2)
+	budgets := map[string]int{"outage": 3, "restart": maxRestarts, "lost": maxLost}
 	r.Assume = []string{
 		"virtual time; DA block time 1 s; a DA outage rejects every Submit during one DA block with a generic error",
 		"'genuinely still waiting' is read in the weakest way: committed blocks whose header, or non-empty data, has not been acknowledged by the DA layer, counted once per block",
 		"'resumes as soon as accepted': checked after three accepting DA blocks in which nothing is left unacknowledged",
+		fmt.Sprintf("DA outages have two forms: a DA block in which every Submit is ANSWERED with a generic error, and a DA block in which the header submissions, the data submissions or both get NO ANSWER at all (neither success nor error: the DA double logs the request, stores nothing, and the call returns only when its context is done, with the context's error); the unanswered calls stay open when that DA block is over, every later request is answered 'accepted'. The node cannot tell a lost request from a slow one before it gives the call up, so after a history with a lost request the closing phase is %d accepting DA blocks longer (the code under test abandons an attempt after 60 s; 'never stops permanently' is checked as 'production has resumed after %d+3 DA blocks in which the DA layer accepted every submission it was sent'). The declines-only-while-waiting oracle stays armed all the time: blocks whose request got no answer are genuinely unacknowledged", lostHorizon, lostHorizon),
 		"node restarts: between any two actions the process may end — crash (from that instant no call of the old process reaches the store, the DA layer, the executor or the sequencer) or clean stop (the loops are cancelled and run to their end first) — and a NEW Manager is constructed over the key/value image the old process left behind, with the same DA layer, executor and sequencing layer; the submission loops are started again and the harness keeps acting between two DA blocks. The oracle is the same before and after a restart (the ground truth is the DA double's acknowledgement log and the chain in the image, both of which outlive the process). Restarts happen at action boundaries only: no crash in the middle of a store write or of a DA call (after such a crash the node cannot know about an acceptance, so counting the block as waiting is not a violation; C04/C06/C07 explore those instants). The on-disk cache files are not part of this world (root directory absent); the pending counts do not use them. A node that cannot be constructed over its own image is reported (clause startup)",
-		"part 2: lazy mode (block interval 1 s, idle interval 2 s), idle chain (only empty batches), real AggregationLoop and submission loops under the cooperative scheduler in canonical order; every outage pattern over 6/8 DA blocks, limits 1-2, with up to 1/2 restarts (crash or clean stop; new Manager and new loops over the image left behind) at any DA-block boundary including the one before the closing phase; after the DA accepted everything for 4 DA blocks a block must appear within two idle intervals and a block interval",
+		"part 2: lazy mode (block interval 1 s, idle interval 2 s), idle chain (only empty batches), real AggregationLoop and submission loops under the cooperative scheduler in canonical order; every outage pattern (per DA block: accepting / answered with an error / requests get no answer, the last at most 1/2 times) over 6/8 DA blocks, limits 1-2, with up to 1/2 restarts (crash or clean stop; new Manager and new loops over the image left behind) at any DA-block boundary including the one before the closing phase; after the DA accepted everything for 4 DA blocks (4+"+fmt.Sprint(lostHorizon)+" after a lost request) a block must appear within two idle intervals and a block interval",
 		"the exploration is dealt out to 16 processes by a hash of the first half of each history (each process walks the prefix tree, exactly one continues below a prefix); evaluations counts complete histories only, each once",
 	}
 	run := func(c *explore.Ctx) outcome { return body(t, c, depth, sh) }
@@ -395,7 +462,8 @@ func TestCheck(t *testing.T) {
 		return
 	}
 	var full, points atomic.Int64 // complete histories of this process (prefix stubs of other shards are not counted)
-	var sampled [3]atomic.Int32
+	var lostRuns, lostReqs atomic.Int64 // histories in which at least one DA request got no answer / such requests
+	var sampled [5]atomic.Int32
 	st := explore.Explore(explore.Config{Budgets: budgets, Deadline: vf.Pick(r, 240*time.Second, 25*time.Minute)}, func(c *explore.Ctx) {
 		o := run(c)
 		if o.skipped || (o.early && !sh.mine(c)) {
@@ -403,6 +471,10 @@ func TestCheck(t *testing.T) {
 		}
 		full.Add(1)
 		points.Add(int64(len(c.Choices())))
+		if o.lost > 0 {
+			lostRuns.Add(1)
+			lostReqs.Add(int64(o.lost))
+		}
 		restarted := strings.ContainsAny(o.sig, "KR")
 		if o.fail != nil {
 			r.Report(vf.Violation{Clause: o.fail.Clause, Tags: o.tags, Msg: fmt.Sprintf("%s\n events: %v", o.fail.Msg, o.events), Cost: len(o.events), History: c.Choices()})
@@ -415,8 +487,11 @@ func TestCheck(t *testing.T) {
 			if restarted {
 				k = 1
 			}
+			if o.lost > 0 {
+				k = 3
+			}
 			if sampled[k].Add(1) == 1 {
-				r.Sample(map[string]any{"events": o.events, "signature(P=produced,d=declined,t=DA block,x=outage,K=crash+restart,R=clean stop+restart)": o.sig})
+				r.Sample(map[string]any{"events": o.events, "requests_without_answer": o.lost, "signature(P=produced,d=declined,t=DA block,x=outage,h/a/b=DA block whose header/data/all requests get no answer,T=lostHorizon accepting DA blocks,K=crash+restart,R=clean stop+restart)": o.sig})
 			}
 		}
 	})
@@ -425,13 +500,17 @@ func TestCheck(t *testing.T) {
 	}
 	// part 2: lazy mode, idle chain, real AggregationLoop
 	var lazyFull atomic.Int64
-	st2 := explore.Explore(explore.Config{Budgets: map[string]int{"restart": lazyRestarts}, Deadline: vf.Pick(r, 120*time.Second, 10*time.Minute)}, func(c *explore.Ctx) {
+	st2 := explore.Explore(explore.Config{Budgets: map[string]int{"restart": lazyRestarts, "lost": lazyLost}, Deadline: vf.Pick(r, 120*time.Second, 10*time.Minute)}, func(c *explore.Ctx) {
 		o := lazyBody(t, c, lazyBlocks, sh)
 		if o.skipped || (o.early && !sh.mine(c)) {
 			return
 		}
 		lazyFull.Add(1)
 		points.Add(int64(len(c.Choices())))
+		if o.lost > 0 {
+			lostRuns.Add(1)
+			lostReqs.Add(int64(o.lost))
+		}
 		if o.fail != nil {
 			if o.fail.Clause == "engine" {
 				r.EngineError(o.fail.Msg)
@@ -444,6 +523,9 @@ func TestCheck(t *testing.T) {
 		r.Outcome(o.sig)
 		if len(o.events) >= 2 && strings.Contains(o.sig, "restart") && sampled[2].Add(1) == 1 {
 			r.Sample(map[string]any{"part": "lazy idle chain", "result": o.sig})
+		}
+		if o.lost > 0 && sampled[4].Add(1) == 1 {
+			r.Sample(map[string]any{"part": "lazy idle chain", "requests_without_answer": o.lost, "result": o.sig})
 		}
 	})
 	for _, m := range st2.Nondet {
@@ -458,8 +540,10 @@ func TestCheck(t *testing.T) {
 	}
 	r.Finish(vf.Coverage{
 		Evaluations: full.Load() + lazyFull.Load(), DistinctNontrivial: int64(r.DistinctOutcomes()), States: int64(r.DistinctOutcomes()), Transitions: points.Load(),
-		Rule:       "every action sequence of the depth bound over {produce non-empty, produce empty, one DA block with accepting DA, one DA block of DA outage (at most max_outage_blocks), crash + restart, clean stop + restart (together at most max_restarts; a restart = a NEW Manager and new submission loops over the key/value image the old process left behind, same DA layer / executor / sequencing layer)} × limit {1,2,3} × initial height {1,3}, on the real production step and the real submission loops under virtual time, each followed by three accepting DA blocks and one production attempt; part 2 (lazy mode, idle chain, real AggregationLoop): every outage pattern over lazy_da_blocks DA blocks × limit {1,2} × at most lazy_max_restarts restarts (crash or clean stop) at the DA-block boundaries; distinct = distinct produced/declined/restarted signatures",
+		Rule:       "every action sequence of the depth bound over {produce non-empty, produce empty, one DA block with accepting DA, one DA block of DA outage (every request answered with an error; at most max_outage_blocks), one DA block in which the header requests / the data requests / both get NO answer (the calls stay open, afterwards the DA layer accepts; at most max_lost_request_blocks), crash + restart, clean stop + restart (together at most max_restarts; a restart = a NEW Manager and new submission loops over the key/value image the old process left behind, same DA layer / executor / sequencing layer)} × limit {1,2,3} × initial height {1,3}, on the real production step and the real submission loops under virtual time, each followed by three accepting DA blocks (lost_request_horizon_da_blocks more after a lost request) and one production attempt; part 2 (lazy mode, idle chain, real AggregationLoop): every outage pattern (accepting / error / no answer, the last at most lazy_max_lost_request_blocks times) over lazy_da_blocks DA blocks × limit {1,2} × at most lazy_max_restarts restarts (crash or clean stop) at the DA-block boundaries; distinct = distinct produced/declined/restarted signatures",
 		Exhaustive: true, Caps: caps,
-		Bounds: map[string]any{"depth": depth, "limits": []int{1, 2, 3}, "initial_heights": []int{1, 3}, "max_outage_blocks": 3, "max_restarts": maxRestarts, "restart_kinds": []string{"crash", "clean-stop"}, "lazy_da_blocks": lazyBlocks, "lazy_limits": []int{1, 2}, "lazy_max_restarts": lazyRestarts},
+		Bounds: map[string]any{"depth": depth, "limits": []int{1, 2, 3}, "initial_heights": []int{1, 3}, "max_outage_blocks": 3, "max_restarts": maxRestarts, "restart_kinds": []string{"crash", "clean-stop"}, "lazy_da_blocks": lazyBlocks, "lazy_limits": []int{1, 2}, "lazy_max_restarts": lazyRestarts,
+			"max_lost_request_blocks": maxLost, "lost_request_kinds": []string{"header requests", "data requests", "both"}, "lazy_max_lost_request_blocks": lazyLost, "lost_request_horizon_da_blocks": lostHorizon,
+			"histories_with_unanswered_request_this_process": lostRuns.Load(), "unanswered_requests_this_process": lostReqs.Load()},
 	})
 }
